@@ -28,6 +28,13 @@ HIGH = {'c0': ['g0'], 'c1': ['g1'], 'c2': ['g2', 'g5'], 'c3': ['g3'],
 
 def setup(case, mode):
     warnings.simplefilter('ignore')
+    import cell_type_mapper.diff_exp.p_value_mask as PV
+    import cell_type_mapper.diff_exp.p_value_markers as PVM
+    for m in (PV, PVM):
+        patch(m, 'multiprocessing', mpmodel.multiprocessing)
+        patch(m, 'print', lambda *a, **k: None)
+        if hasattr(m, 'print_timing'):
+            patch(m, 'print_timing', lambda **k: None)
     patch(MK, 'multiprocessing', mpmodel.multiprocessing)
     patch(PAR, 'multiprocessing', mpmodel.multiprocessing)
     patch(MK, 'print', lambda *a, **k: None)
@@ -179,16 +186,34 @@ def run_stage(ctx, case, faults=False):
     res = {'sizes': sizes, 'prof': prof, 'exact': exact, 'gene_list': gl,
            'root': root, 'out': out, 'tree': tree}
 
+    route = case.get('route', 'direct')
+    res['route'] = route
+
     def go(path, nproc, faults_on):
         mpmodel.SCHED.reset(K=case.get('K', 0), faults=faults_on,
                             fault_modes=case.get('fault_modes'),
                             fault_steps=1)
         try:
-            MK.find_markers_for_all_taxonomy_pairs(
-                stats, tree, path, n_processors=nproc,
-                tmp_dir=os.path.join(root, 'scratch'),
-                exact_penetrance=exact, n_valid=n_valid, gene_list=gl,
-                max_gb=1)
+            if route == 'direct':
+                MK.find_markers_for_all_taxonomy_pairs(
+                    stats, tree, path, n_processors=nproc,
+                    tmp_dir=os.path.join(root, 'scratch'),
+                    exact_penetrance=exact, n_valid=n_valid, gene_list=gl,
+                    max_gb=1)
+            else:
+                import cell_type_mapper.diff_exp.p_value_mask as PV
+                import cell_type_mapper.diff_exp.p_value_markers as PVM
+                mask = path + '.p_value_mask.h5'
+                res['mask'] = mask
+                res['mask_stage_failed'] = True
+                PV.create_p_value_mask_file(
+                    stats, mask, n_processors=nproc,
+                    tmp_dir=os.path.join(root, 'scratch'), n_per=8)
+                res['mask_stage_failed'] = False
+                PVM.find_markers_for_all_taxonomy_pairs_from_p_mask(
+                    stats, mask, path, n_processors=nproc,
+                    tmp_dir=os.path.join(root, 'scratch'), max_gb=1,
+                    n_valid=n_valid, gene_list=gl)
             return None
         except Exception as e:
             return e
@@ -248,7 +273,7 @@ def check_tables(ctx, res):
             if want[g]:
                 ctx.check(g in marked, 'a gene passing the strict '
                           'thresholds is recorded')
-            elif res['exact']:
+            elif res['exact'] and res.get('route', 'direct') == 'direct':
                 ctx.check(g not in marked, 'exact penetrance: nothing else '
                           'is recorded')
     if 'ref' in res:
